@@ -13,7 +13,10 @@
 // every numbering order, absent and empty groups, up to 5 groups) and with a
 // sweep of the number of groups and the line length. The real binary is run on
 // the complete line set for the flag plumbing and the end-to-end output, plain
-// and with --color.
+// and with --color, and (linelen.go) on small inputs in which one or two lines
+// are as long as the production read buffer and up to 256 times longer: source
+// name, line number and text of every record, through a file and through
+// standard input, for several batch sizes and worker counts.
 package main
 
 import (
@@ -75,13 +78,15 @@ var alphabet = []string{"a", "b", "c", "B", " ", "\x1b[1m", "é"}
 // Case is one replayable case. Kind "" = one line through the real matcher
 // (regex family); "wrap" = color.WrapIndices driven directly with Groups on
 // Line (wrap.go); "cli" / "cli-colour" = the real binary over the whole line
-// set up to MaxLen symbols for Pattern.
+// set up to MaxLen symbols for Pattern; "linelen" = one run of the binary of the
+// line-length sweep (linelen.go).
 type Case struct {
 	Kind    string  `json:"kind,omitempty"`
 	Pattern pattern `json:"pattern"`
 	Line    string  `json:"line"`
 	Groups  []int   `json:"groups,omitempty"`
 	MaxLen  int     `json:"max_len,omitempty"`
+	LineLen *LLCase `json:"linelen,omitempty"` // Kind "linelen" (linelen.go)
 }
 
 var ansi = regexp.MustCompile("\x1b\\[[0-9;]*m")
@@ -302,6 +307,11 @@ func worker(w *runner.W) {
 	}
 	// the command-line runs: pattern i on shard i mod N, plain and with --color
 	cliPart(w, maxLen, func(i int) bool { return w.Owns(int64(i)) })
+	if w.Expired() {
+		return
+	}
+	// the line-length sweep through the real binary (linelen.go)
+	lineLenFamily(w)
 }
 
 // cliPart runs the real binary per pattern over the whole line set, once
@@ -432,6 +442,11 @@ func replay(w *runner.W, raw json.RawMessage) {
 	}
 	color.Enabled = true
 	switch c.Kind {
+	case "linelen":
+		if c.LineLen != nil {
+			llReplay(w, *c.LineLen)
+		}
+		return
 	case "wrap":
 		wrapOne(w, c.Line, c.Groups)
 		return
@@ -471,10 +486,10 @@ func main() {
 		Properties: []string{"C02"},
 		Level:      "exploration",
 		Rule: func(prop, tier string) string {
-			return "(1) 21 regexes (optional, nested, alternated, named and empty groups; leftmost-first and POSIX leftmost-longest; case-insensitive; repeated alternations such as (?:(a)|(b)|c)+, ((a)|b)+, (?:(a(b)?)|(c))+ whose groups keep the text of an earlier iteration, so that group spans occur in every order in the line: later-numbered before earlier-numbered, a stale inner group outside its parent, empty and non-participating groups in between; 14 groups, more than the 12 group colours) x every line up to 4 (quick) / 5 (thorough) symbols over {a,b,c,B,space,ESC[1m,é}: the real fastregex matcher must return the indices of Go's regexp on that line; color.WrapIndices (what default `filter` prints, colour forced on) with the added codes removed must equal the line; {0} {1} {2} {3} {7} {99} {2^31} {2^62-1} {2^62} {2^63-1} {@}, {name} and the last two groups evaluated through the real extractor context must equal the groups of that match (non-participating and non-existent groups empty). (2) color.WrapIndices driven directly with EVERY index vector a regex engine can produce (each group absent (-1,-1) or a span on rune boundaries incl. empty spans; any two spans nested, equal or disjoint, never partially overlapping; in EVERY numbering order): 1-3 groups x every line of 0..5 (quick) / 0..6 (thorough) symbols over {a,b,é}; 4 groups on one line of all-different symbols per length 0..5 / 0..6, 5 groups per length 0..4 / 0..5: the output with the added codes removed must equal the line, no panic. (3) size sweep of WrapIndices: 1..70, 127..257 (quick) / ..1025 (thorough) groups in 8 shapes (line order, reverse order, each inside / around the one before, all equal, every other symbol in line / reverse order, only the last one participating) and lines of 3..70, 127..4097 / ..65537 all-different symbols with 3 one-symbol groups at start, middle and end in all 6 numbering orders plus nested forms. (4) the real binary per pattern over the whole line set (up to 3 / 4 symbols), once plain (output = exactly the matched lines; -I / --posix honoured) and once with the global --color flag (output with the added codes removed = exactly the matched lines). Non-trivial = a match with at least one group / a vector with at least one non-empty group whose output carries colour codes / a --color run whose output carries colour codes."
+			return "(1) 21 regexes (optional, nested, alternated, named and empty groups; leftmost-first and POSIX leftmost-longest; case-insensitive; repeated alternations such as (?:(a)|(b)|c)+, ((a)|b)+, (?:(a(b)?)|(c))+ whose groups keep the text of an earlier iteration, so that group spans occur in every order in the line: later-numbered before earlier-numbered, a stale inner group outside its parent, empty and non-participating groups in between; 14 groups, more than the 12 group colours) x every line up to 4 (quick) / 5 (thorough) symbols over {a,b,c,B,space,ESC[1m,é}: the real fastregex matcher must return the indices of Go's regexp on that line; color.WrapIndices (what default `filter` prints, colour forced on) with the added codes removed must equal the line; {0} {1} {2} {3} {7} {99} {2^31} {2^62-1} {2^62} {2^63-1} {@}, {name} and the last two groups evaluated through the real extractor context must equal the groups of that match (non-participating and non-existent groups empty). (2) color.WrapIndices driven directly with EVERY index vector a regex engine can produce (each group absent (-1,-1) or a span on rune boundaries incl. empty spans; any two spans nested, equal or disjoint, never partially overlapping; in EVERY numbering order): 1-3 groups x every line of 0..5 (quick) / 0..6 (thorough) symbols over {a,b,é}; 4 groups on one line of all-different symbols per length 0..5 / 0..6, 5 groups per length 0..4 / 0..5: the output with the added codes removed must equal the line, no panic. (3) size sweep of WrapIndices: 1..70, 127..257 (quick) / ..1025 (thorough) groups in 8 shapes (line order, reverse order, each inside / around the one before, all equal, every other symbol in line / reverse order, only the last one participating) and lines of 3..70, 127..4097 / ..65537 all-different symbols with 3 one-symbol groups at start, middle and end in all 6 numbering orders plus nested forms. (4) the real binary per pattern over the whole line set (up to 3 / 4 symbols), once plain (output = exactly the matched lines; -I / --posix honoured) and once with the global --color flag (output with the added codes removed = exactly the matched lines). (5) line-length sweep through the real binary (linelen.go): inputs of 3-8 distinguishable lines 'r<i> <payload>' in which the long line is the first of 5 / the 3rd of 6 / the last of 4 / the last of 3 without a final newline / the 2nd and 6th of 8 (thorough also: the 3rd and 4th of 5), the long lines having L = 2^k-1, 2^k, 2^k+1 bytes for k = 12..24 (quick; at k = 24 only 2^24 = 16 MiB) / 12..25 (thorough, up to 32 MiB + 1) - from below the 128 KiB production read buffer to 128 / 256 times its size - and a period-61 fill; `rare filter` through a file argument and through a pipe on standard input (the time-flushing batcher), --batch 1 / 2 / default, --workers 1 / 2, --readers 1, once with -m '^(\\w+) (.*)$' -e '{src}|{line}|{1}|{len {0}}|first 8|middle 8|last 8 bytes of {0}' and once as `filter -l` without a matcher (source, line number and the WHOLE line text compared). Configurations per (size, shape): quick 8 up to 1 MiB (input x batch, workers alternating, + `-l` per input), 3 for 2-4 MiB, 1 (rotating through all 16) for 8 and 16 MiB; thorough all 16 (input x batch x workers + 2 `-l` per input) up to 4 MiB, 8 for 8 MiB, 3 for 16 MiB, 1 for 32 MiB (the cost of a run grows with the square of L). Demanded of every run: exactly one record per input line with that line's source name, true 1-based line number, tag group, length and sampled bytes (whole text with -l); records in input order with one worker; `Matched: N / N`, no error line on stderr, exit status 0. Non-trivial for this family = exit status 0 with at least one record. Non-trivial otherwise = a match with at least one group / a vector with at least one non-empty group whose output carries colour codes / a --color run whose output carries colour codes."
 		},
 		Assumptions: func(string) []string {
-			return []string{"lines that themselves contain one of the colour codes WrapIndices adds are not judged for the stripping clause (no line of the alphabets does)", "PCRE2 builds of fastregex are not covered; index vectors with partially overlapping spans (only lookaround can produce them) are outside the direct family", "only the stripping clause is demanded of the colouring: which groups are highlighted and in which colour is not part of the statement (the regex family alone also expects some group to be highlighted when one is non-empty)"}
+			return []string{"lines that themselves contain one of the colour codes WrapIndices adds are not judged for the stripping clause (no line of the alphabets does)", "PCRE2 builds of fastregex are not covered; index vectors with partially overlapping spans (only lookaround can produce them) are outside the direct family", "line-length sweep: lines longer than 32 MiB + 1 (quick: 16 MiB) are not fed; the read sizes of the pipe on standard input are whatever the kernel delivers (the oracle does not depend on them); that every line - however long - is emitted at all, the summary and the exit status are clauses of C01 / C06 rather than of C02 and are checked here (own signatures .../long-line-not-emitted, .../summary-differs, .../exit-status-not-0) because this sweep is the only place where lines of this size reach the binary", "only the stripping clause is demanded of the colouring: which groups are highlighted and in which colour is not part of the statement (the regex family alone also expects some group to be highlighted when one is non-empty)"}
 		},
 		Worker:         worker,
 		Replay:         replay,
